@@ -270,6 +270,8 @@ def translate_pattern(pattern: str, flags: int = 0, xsd_version: str = '1.0',
 
             else:
                 regex.append('\\%s' % pattern[pos])
+        elif ch == '#' and flags & re.VERBOSE:
+            regex.append(r'\#')  # not a comment in XPath's 'x' mode
         else:
             regex.append(ch)
         pos += 1
